@@ -71,6 +71,12 @@ func goTypeName(t types.Type) string {
 		if u.Obj().Pkg() != nil && u.Obj().Pkg().Path() == "math/big" {
 			return "big." + u.Obj().Name()
 		}
+		if u.Obj().Pkg() != nil && u.Obj().Pkg().Path() != "github.com/cockroachdb/apd/v3" {
+			if it, ok := u.Underlying().(*types.Interface); ok && it.NumMethods() == 0 {
+				return "interface{}" // e.g. database/sql/driver.Value
+			}
+			return u.Obj().Pkg().Path() + "." + u.Obj().Name() // a type the harness does not import (callers skip it)
+		}
 		return u.Obj().Name()
 	case *types.Basic:
 		return u.Name()
